@@ -397,3 +397,238 @@ func SilenceConsole() {
 		os.Stderr = dn
 	}
 }
+
+// ------------------------------------------------------- '?' after ')' shapes
+
+// slot is a place in the tree where any expression may stand.
+type slot struct {
+	get func() *fqlast.E
+	set func(*fqlast.E)
+}
+
+func exprSlots(e *fqlast.E, out *[]slot) {
+	if e == nil {
+		return
+	}
+	add := func(pp **fqlast.E) {
+		if *pp != nil {
+			*out = append(*out, slot{func() *fqlast.E { return *pp }, func(x *fqlast.E) { *pp = x }})
+			exprSlots(*pp, out)
+		}
+	}
+	switch e.K {
+	case "member": // the source of a member path must stay a name / call / literal
+		exprSlots(e.A, out)
+	case "range": // operands are integer literals, names or parameters
+	default:
+		add(&e.A)
+		add(&e.B)
+		add(&e.C)
+	}
+	for i := range e.L {
+		add(&e.L[i])
+	}
+	for i := range e.Props {
+		add(&e.Props[i].Key)
+		add(&e.Props[i].Val)
+	}
+	for i := range e.Path {
+		add(&e.Path[i].Expr)
+	}
+	if e.Q != nil {
+		forSlots(e.Q, out)
+	}
+}
+
+func forSlots(q *fqlast.For, out *[]slot) {
+	add := func(pp **fqlast.E) {
+		if *pp != nil {
+			*out = append(*out, slot{func() *fqlast.E { return *pp }, func(x *fqlast.E) { *pp = x }})
+			exprSlots(*pp, out)
+		}
+	}
+	exprSlots(q.Src, out)
+	for i := range q.Body {
+		c := &q.Body[i]
+		switch c.K {
+		case "let":
+			add(&c.E)
+		case "collect":
+			for j := range c.Groups {
+				add(&c.Groups[j].E)
+			}
+			add(&c.Tail.Proj)
+		case "call":
+			exprSlots(c.E, out)
+		default:
+			// FILTER / SORT expressions are left alone: a rewritten left-most
+			// operand would be parenthesised and put '(' directly after the
+			// keyword (recorded finding); LIMIT values are restricted
+		}
+	}
+	if q.Ret != nil {
+		if q.Ret.For != nil {
+			forSlots(q.Ret.For, out)
+		} else {
+			add(&q.Ret.E)
+		}
+	}
+}
+
+// InjectQ rewrites up to max randomly chosen sub-expressions into shapes that
+// put a '?' directly after ')': shorthand and full ternaries whose condition
+// is a call or a parenthesised operand, with unary minus / plus / NOT / NONE /
+// a call as the then-branch, nested in then- and else-branches, the error
+// operator followed by a ternary, by ':' and by a binary operator.
+func InjectQ(p *fqlast.Program, rng *rand.Rand, max int) int {
+	var slots []slot
+	for i := range p.Stmts {
+		if p.Stmts[i].Let {
+			pp := &p.Stmts[i].E
+			slots = append(slots, slot{func() *fqlast.E { return *pp }, func(x *fqlast.E) { *pp = x }})
+			exprSlots(*pp, &slots)
+		} else {
+			exprSlots(p.Stmts[i].E, &slots)
+		}
+	}
+	if p.Ret != nil {
+		slots = append(slots, slot{func() *fqlast.E { return p.Ret }, func(x *fqlast.E) { p.Ret = x }})
+		exprSlots(p.Ret, &slots)
+	}
+	if p.For != nil {
+		forSlots(p.For, &slots)
+	}
+	if len(slots) == 0 {
+		return 0
+	}
+	n := 0
+	for k := 0; k < max; k++ {
+		s := slots[rng.Intn(len(slots))]
+		s.set(QShape(rng, s.get()))
+		n++
+	}
+	return n
+}
+
+var qid = 0
+
+func qLit(rng *rand.Rand) *fqlast.E {
+	switch rng.Intn(6) {
+	case 0:
+		return fqlast.Param("n")
+	case 1:
+		return fqlast.Bool(rng.Intn(2) == 0)
+	case 2:
+		return fqlast.Str("a")
+	case 3:
+		return fqlast.None()
+	}
+	return fqlast.Int(int64(rng.Intn(6)))
+}
+
+func qCall(rng *rand.Rand) *fqlast.E {
+	qid++
+	if rng.Intn(3) == 0 {
+		return fqlast.Call("ARR", qLit(rng))
+	}
+	return fqlast.Call("T", fqlast.Int(int64(5000+qid)), qLit(rng))
+}
+
+// QShape builds one of the shapes around x.
+func QShape(rng *rand.Rand, x *fqlast.E) *fqlast.E {
+	lit := func() *fqlast.E { return qLit(rng) }
+	call := func() *fqlast.E { return qCall(rng) }
+	par := func() *fqlast.E { return fqlast.Suppress(fqlast.Math("+", lit(), lit())) } // (a + b)?
+	un := func() *fqlast.E { return fqlast.Un([]string{"-", "+", "NOT", "!", "-"}[rng.Intn(5)], lit()) }
+	switch rng.Intn(16) {
+	case 0:
+		return fqlast.Cond(call(), un(), x) // F() ? -a : x
+	case 1:
+		return fqlast.Cond(call(), nil, x) // F() ?: x
+	case 2:
+		return fqlast.Cond(fqlast.Suppress(call()), lit(), x) // F()? ? a : x
+	case 3:
+		return fqlast.Cond(x, fqlast.Cond(call(), nil, lit()), lit()) // x ? F() ?: a : b
+	case 4:
+		return fqlast.Cond(x, fqlast.Suppress(call()), lit()) // x ? F()? : b
+	case 5:
+		return fqlast.Cond(lit(), fqlast.Math("-", fqlast.Suppress(call()), lit()), x) // a ? F()? - b : x
+	case 6:
+		return fqlast.Cond(call(), fqlast.None(), x) // F() ? NONE : x
+	case 7:
+		return fqlast.Cond(call(), fqlast.Cond(call(), un(), lit()), x) // F() ? G() ? -a : b : x
+	case 8:
+		return fqlast.Cond(par(), un(), x) // (a + b)? ? -c : x
+	case 9:
+		return fqlast.Cond(call(), x, fqlast.Cond(call(), un(), lit())) // F() ? x : (G() ? -a : b)
+	case 10:
+		return fqlast.Math("-", fqlast.Suppress(call()), x) // F()? - x
+	case 11:
+		return fqlast.Cond(fqlast.Math("*", lit(), fqlast.Math("+", lit(), lit())), un(), x) // a * (b + c) ? -d : x
+	case 12:
+		return fqlast.Cond(call(), call(), x) // F() ? G() : x
+	case 13:
+		return fqlast.Cond(fqlast.Cond(call(), un(), lit()), nil, x) // F() ? -a : b ?: x
+	case 14:
+		return fqlast.Cond(lit(), fqlast.Cond(fqlast.Suppress(par()), nil, lit()), x) // a ? ((b + c)?)? ?: d : x
+	}
+	return fqlast.Log("AND", fqlast.Suppress(call()), x) // F()? AND x
+}
+
+// QText writes a random expression text over a small grammar of '?' shapes
+// (operands ending in ')', error operators, shorthand and full ternaries,
+// unary operators, NONE, nesting); many of the texts are ill-formed or have
+// more than one reading.
+func QText(rng *rand.Rand, d int) string {
+	operand := func() string {
+		switch rng.Intn(6) {
+		case 0:
+			return "(" + []string{"0", "1", "2"}[rng.Intn(3)] + ")"
+		case 1:
+			return "LENGTH([" + []string{"", "1", "1, 2"}[rng.Intn(3)] + "])"
+		case 2:
+			return "T(1, " + []string{"0", "1", "NONE"}[rng.Intn(3)] + ")"
+		case 3:
+			return "@n"
+		case 4:
+			return "NONE"
+		}
+		return []string{"0", "1", "7"}[rng.Intn(3)]
+	}
+	if d <= 0 {
+		return operand()
+	}
+	sub := func() string { return QText(rng, d-1) }
+	switch rng.Intn(14) {
+	case 0:
+		return operand()
+	case 1, 2:
+		return sub() + "?"
+	case 3, 4:
+		t := sub()
+		switch rng.Intn(5) {
+		case 0:
+			t = "-" + t
+		case 1:
+			t = "NOT " + t
+		case 2:
+			t = "+ " + t
+		}
+		return sub() + " ? " + t + " : " + sub()
+	case 5, 6:
+		return sub() + " ?: " + sub()
+	case 7:
+		return "-" + sub()
+	case 8:
+		return "NOT " + sub()
+	case 9:
+		return sub() + []string{" + ", " - ", " AND ", " == ", " IN "}[rng.Intn(5)] + sub()
+	case 10:
+		return "(" + sub() + ")"
+	case 11:
+		return "[" + sub() + ", " + sub() + "]"
+	case 12:
+		return sub() + " ? " + sub() + "? : " + sub()
+	}
+	return "(" + sub() + ")?"
+}
